@@ -1,13 +1,26 @@
 """C13 — mesh size doubles after a successful poll (up to a cap), shrinks after a failure."""
-from harness import runlevel as R, skel as S
+from harness import comp_grid as G, runlevel as R, skel as S
 
-PROPS = "Props/C13.v"
-THEOREMS = ["C13_mesh_invariant", "C13_poll_update", "C13_poll_best_is_max", "C13_only_polls_change_mesh", "C13_tolmesh_msg", "C13_tolmesh_msg_run"]
+PROPS = ["Props/C13.v", "Props/C13grid.v"]
+TRANSLATORS = ["grid"]
+THEOREMS = ["C13_mesh_invariant", "C13_poll_update", "C13_poll_best_is_max", "C13_only_polls_change_mesh", "C13_tolmesh_msg", "C13_tolmesh_msg_run",
+            # Props/C13grid.v: about gen/Src_grid.v (mesh sizes and exponents, tol_mesh snapping, forcing function, _eval_improvement_)
+            "C13_mesh_is_power", "C13_mesh_order", "C13_tolmesh_test_is_exponent_test", "C13_search_exponent_is_source", "C13_search_mesh_le_poll_mesh",
+            "C13_tol_mesh_snap_least_power", "C13_tol_mesh_snap_same_stop", "C13_sufficient_improvement", "C13_improvement_without_sd", "C13_improvement_with_sd"]
+# the theorems over R (snapping, forcing function, _eval_improvement_ with SDs) use the standard library's real numbers
+ALLOWED_AXIOMS = ["ClassicalDedekindReals.sig_forall_dec", "ClassicalDedekindReals.sig_not_dec",
+                  "FunctionalExtensionality.functional_extensionality_dep", "Classical_Prop.classic"]
 LEVEL = "proof"
 RULE = ("same real-run panel as C03; every poll step's mesh exponent before/after is compared with the model's; "
-        "non-trivial = a run containing both a successful (mesh up or capped) and a failed poll")
+        "non-trivial = a run containing both a successful (mesh up or capped) and a failed poll.  GRID ARITHMETIC (harness/comp_grid.py): the located statements of _init_optim_state_, "
+        "of the loop head of optimize() and of _poll_step_, and _eval_improvement_, are executed for real on generated exponents (k -30..2, locked / unlocked search size, grid multipliers 1-3, "
+        "grid numbers 0-20), tol_mesh values (decimal, exact powers of two and their binary64 neighbours), forcing parameters and value / SD pairs; compared with the translated definitions "
+        "(exactly for Q / Z, bit-for-bit in binary64 and to 1e-12 in 60-digit Decimal for R); real BADS objects and every recorded mesh size, forcing value and improvement of the panel runs too")
 TRUSTED = ["Coq 8.16.1 kernel + vm_compute", "hand-written model Model/Skeleton.v tied per loop iteration to real runs (harness/trace.py, harness/skel.py)",
-           "sufficient_improvement (tol_improvement * mesh^(3/2) floored at tol_fun) and each float improvement are oracle values recorded from the run; mesh_size = 2.0**k is exact in binary64",
+           "sufficient_improvement (tol_improvement * mesh^(3/2) floored at tol_fun) and each float improvement are oracle values recorded from the run in the skeleton tie; mesh_size = 2.0**k is exact in binary64",
+           "translate/grid.py regenerates the mesh / tolerance / forcing / improvement expressions of bads.py on every run (gen/Src_grid.v; fail-closed ast whitelist); validated each run against the real code "
+           "(exact Fractions and Coq vm_compute for Q / Z; binary64 bit-for-bit and 60-digit Decimal for R); erfcinv is an uninterpreted function; standard real-number axioms for the R theorems only",
+           "binary64 log / divide / ceil decide the snapping exponent: within 2^-48 (relative) of a power of two the code may choose the neighbouring exponent (counted as grid_snap_rounding_observations)",
            "default poll_mesh_multiplier = 2, max_poll_grid_number = 0, search_mesh_expand = 0 (the theorems state these premises)"]
 ASSUMPTIONS = ["stobads = False (default)"]
 
@@ -42,10 +55,15 @@ def tie(ctx, broken):
         for a, b in zip(ks[::2], ks[1::2]):
             hist[b - a] = hist.get(b - a, 0) + 1
     ctx.coverage["poll_mesh_exponent_deltas"] = {str(k): v for k, v in sorted(hist.items())}
+    # the mesh arithmetic regenerated from the source (gen/Src_grid.v) against the real code: components, real objects, these runs
+    G.tie_grid(ctx, broken, traces=[tr for tr, _ in out])
 
 
 def search(ctx, broken):
+    found = G.search_grid(ctx, broken) if any("grid" in b[0] or b[0] == "coq_build" for b in broken) else False
     if R.truncate_search(ctx, R.mon_c13):
+        return True
+    if found:
         return True
     specs = S.panel("thorough", ctx.seed + 19)[:40]
     out = [(tr, None) for tr in S.traces([(s, None) for s in specs], "c13s")]
@@ -53,4 +71,6 @@ def search(ctx, broken):
 
 
 def replay(ctx, rp):
+    if str(rp.get("key", "")).startswith("grid:"):
+        return G.replay_grid(ctx, rp)
     return R.generic_replay(ctx, rp, [R.mon_c13])
